@@ -712,6 +712,17 @@ func (srv *Server) readTCP(conn net.Conn, timeout time.Duration) ([]byte, error)
 	return m, nil
 }
 
+// getUDPBuffer returns a receive buffer of srv.UDPSize octets. A Server that
+// is started again after Shutdown with another UDPSize still has the buffers
+// of its previous run in the pool; those are dropped instead of being used.
+func (srv *Server) getUDPBuffer() []byte {
+	m := srv.udpPool.Get().([]byte)
+	if len(m) != srv.UDPSize {
+		m = make([]byte, srv.UDPSize)
+	}
+	return m
+}
+
 func (srv *Server) readUDP(conn *net.UDPConn, timeout time.Duration) ([]byte, *SessionUDP, error) {
 	srv.lock.RLock()
 	if srv.started {
@@ -720,7 +731,7 @@ func (srv *Server) readUDP(conn *net.UDPConn, timeout time.Duration) ([]byte, *S
 	}
 	srv.lock.RUnlock()
 
-	m := srv.udpPool.Get().([]byte)
+	m := srv.getUDPBuffer()
 	n, s, err := ReadFromSessionUDP(conn, m)
 	if err != nil {
 		srv.udpPool.Put(m)
@@ -738,7 +749,7 @@ func (srv *Server) readPacketConn(conn net.PacketConn, timeout time.Duration) ([
 	}
 	srv.lock.RUnlock()
 
-	m := srv.udpPool.Get().([]byte)
+	m := srv.getUDPBuffer()
 	n, addr, err := conn.ReadFrom(m)
 	if err != nil {
 		srv.udpPool.Put(m)
